@@ -613,21 +613,39 @@ def m_box_new_uninit(ex, a, m):
     return Ptr(Cell(Agg('struct', 'MaybeUninit', None, [Cell(UNIT), Cell(md)])), 'box')
 
 # ------------------------------------------------------------------------------------------ maps
+def map_key(ex, mp, k):
+    """internal (string) key of a map for a key value: strings by their text; integers by value -- a symbolic integer is resolved against the integer keys
+    already in the map by forking (equal to one of them, or different from all)"""
+    kv = deref_all(k) if isinstance(k, Ptr) else k
+    if isinstance(kv, StrV): return conc(ex, kv, 'map key')
+    if not isinstance(kv, Int): raise Unsupported(f'map key of type {type(kv).__name__}')
+    if mp.ik is None: mp.ik = {}
+    c = kv.concrete()
+    live = [(sk, iv) for sk, iv in mp.ik.items() if sk in mp.d]
+    if c is not None and all(iv.concrete() is not None for _, iv in live):
+        sk = f'int:{c}'; mp.ik[sk] = kv; return sk
+    conds = [(sk, kv.bv == iv.bv) for sk, iv in live]
+    conds.append((None, z3.And(*[kv.bv != iv.bv for _, iv in live]) if live else z3.BoolVal(True)))
+    sk = ex.choose(conds)
+    if sk is None:
+        sk = f'int:{c}' if c is not None else f'sym:{len(mp.ik)}:{kv.bv}'
+        mp.ik[sk] = kv
+    return sk
 @model_rx(r'^(BTreeMap|HashMap)::(new|with_capacity)$')
 def m_map_new(ex, a, m): return MapV(ordered=m.group(1) == 'BTreeMap')
 @model_rx(r'^(BTreeMap|HashMap)::insert$')
 def m_map_insert(ex, a, m):
-    mp = a[0].cell.v; k = conc(ex, as_str(a[1]), 'map key')
+    mp = a[0].cell.v; k = map_key(ex, mp, a[1])
     old = mp.d.get(k); mp.d[k] = Cell(a[2])
     return some(old.v) if old is not None else none()
 @model_rx(r'^(BTreeMap|HashMap|serde_json::Map|Map)::get$')
 def m_map_get(ex, a, m):
-    mp = deref_all(a[0]); k = conc(ex, as_str(a[1]), 'map key')
+    mp = deref_all(a[0]); k = map_key(ex, mp, a[1])
     c = mp.d.get(k)
     return some(Ptr(c, 'ref')) if c is not None else none()
 @model_rx(r'^(BTreeMap|HashMap)::remove$')
 def m_map_remove(ex, a, m):
-    mp = a[0].cell.v; k = conc(ex, as_str(a[1]), 'map key')
+    mp = a[0].cell.v; k = map_key(ex, mp, a[1])
     c = mp.d.pop(k, None)
     return some(c.v) if c is not None else none()
 @model_rx(r'^(?:BTreeMap|serde_json::Map|Map)::(values|keys)$')
@@ -635,7 +653,7 @@ def m_map_values(ex, a, m):
     mp = deref_all(a[0])
     if m.group(1) == 'values': return IterV(iter([Ptr(mp.d[k], 'ref') for k in mp.keys()]))
     return IterV(iter([Ptr(Cell(rstr(k)), 'ref') for k in mp.keys()]))
-@model_rx(r'^BTreeMap::(is_empty|len)$')
+@model_rx(r'^(?:BTreeMap|HashMap)::(is_empty|len)$')
 def m_map_len(ex, a, m):
     mp = deref_all(a[0])
     return Bool(len(mp.d) == 0) if m.group(1) == 'is_empty' else Int(len(mp.d), 'usize')
@@ -1655,9 +1673,9 @@ def m_map_iter(ex, a, m):
 @model_rx(r'^(BTreeMap|HashMap|serde_json::Map|Map)::(contains_key|get_mut|clear|len|is_empty|values_mut|into_values|into_keys|first_key_value|last_key_value|pop_first|pop_last|append|retain)$')
 def m_map_more(ex, a, m):
     op = m.group(2); mp = _mapof(a[0])
-    if op == 'contains_key': return Bool(conc(ex, as_str(a[1]), 'map key') in mp.d)
+    if op == 'contains_key': return Bool(map_key(ex, mp, a[1]) in mp.d)
     if op == 'get_mut':
-        c = mp.d.get(conc(ex, as_str(a[1]), 'map key')); return some(Ptr(c, 'ref')) if c is not None else none()
+        c = mp.d.get(map_key(ex, mp, a[1])); return some(Ptr(c, 'ref')) if c is not None else none()
     if op == 'clear': mp.d.clear(); return UNIT
     if op == 'len': return Int(len(mp.d), 'usize')
     if op == 'is_empty': return Bool(len(mp.d) == 0)
@@ -1684,7 +1702,7 @@ def m_map_more(ex, a, m):
         return UNIT
 @model_rx(r'^<(BTreeMap|HashMap)<.*> as (?:std::ops::)?Index<.*>>::index$')
 def m_map_index(ex, a, m):
-    mp = _mapof(a[0]); c = mp.d.get(conc(ex, as_str(a[1]), 'map key'))
+    mp = _mapof(a[0]); c = mp.d.get(map_key(ex, mp, a[1]))
     if c is None: raise Panic('key not found in map (Index)')
     return Ptr(c, 'ref')
 @model_rx(r'^<(BTreeMap|HashMap)<.*> as FromIterator<.*>>::from_iter$')
@@ -2240,7 +2258,7 @@ class EntryV:
     def __init__(s, mp, key): s.mp, s.key = mp, key
 @model_rx(r'^(BTreeMap|HashMap)::entry$')
 def m_map_entry(ex, a, m):
-    mp = _mapof(a[0]); return EntryV(mp, conc(ex, as_str(a[1]), 'map key'))
+    mp = _mapof(a[0]); return EntryV(mp, map_key(ex, mp, a[1]))
 @model_rx(r'^(?:std::collections::)?(?:hash_map|btree_map|hash_map::|btree_map::)?(?:::)?Entry::(or_insert|or_insert_with|or_insert_with_key|or_default|and_modify|key)$|^(?:[\w:]*::)?Entry::<.*>::(or_insert|or_insert_with|or_default|and_modify|key)$')
 def m_entry_ops(ex, a, m):
     op = m.group(1) or m.group(2); e = a[0]
